@@ -14,7 +14,8 @@ from vcheck import Case, gz, gzlist, gnlist, gnmat, gq, gopt
 import tgen
 from props.c02_util import (X_dense, X_sparse, X_k, X_t, X_sum, shape_of, pdense, pfun, all_subs, mk_obj, mat_np,
                             obs_any, obs_ints, obs_pdense, gden, gobs, gmatch, gvecs, gmat, designate,
-                            rand_matrix, rand_vec, rand_k, rand_t, family, rand_sum, degenerate_sparse, relayout, rand_t_struct)
+                            rand_matrix, rand_vec, rand_k, rand_t, family, rand_sum, degenerate_sparse, relayout, rand_t_struct,
+                            sparse_colliding)
 
 PROP = "C02"
 LEVEL = "proof"
@@ -301,6 +302,16 @@ def gen_cases(rng, tier):
             for rep, wk in (("dense", "dense"), ("sparse", "sparse"), ("k", "dense"), ("k", "sparse")):
                 W = X_dense(shp, wdata) if wk == "dense" else X_sparse(shp, wsubs, wvals)
                 cases.append(Case("mask", {"X": fam[rep], "W": W}, nontriv(fam[rep]) and any(wdata)))
+        # a mask WITHOUT any nonzero (sparse: built from empty arrays / from the shape alone; dense: all zero): no value is selected
+        fam = fam_for(shp)
+        fam.setdefault("k", rand_k(rng, shp))
+        for rep in ("k", "dense", "sparse"):
+            W = X_sparse(shp, [], [])
+            if rng.random() < 0.5:
+                W["origin"] = "shape_only"
+            cases.append(Case("mask", {"X": fam[rep], "W": W}, nontriv(fam[rep])))
+            if big or rng.random() < 0.4:
+                cases.append(Case("mask", {"X": fam[rep], "W": X_dense(shp, [0] * math.prod(shp))}, nontriv(fam[rep])))
         # ---- reconstruct (Tucker, index-list samples)
         for _ in range(2 if big else 1):
             T = rand_t(rng, shp)
@@ -361,6 +372,100 @@ def gen_cases(rng, tier):
                 wdata[rng.randrange(len(wdata))] = 1
             wsubs, wvals = tgen.dense_to_sparse(shp, wdata, rng, rng.choice(["sorted", "reversed", "random"]))
             cases.append(Case("mask", {"X": Xs, "W": X_sparse(shp, wsubs, wvals)}, nt))
+    # ---- dense operands reached through a HISTORY (enlarged by an assignment past their bounds: tensor.data is then C-ordered, not
+    #      Fortran-ordered) in EVERY dense kernel, on either side of the two-operand products; Tucker operands holding such a core by reference
+    for shp in [s_ for s_ in shapes if len(s_) >= 2 and max(s_) >= 2]:
+        N = len(shp)
+        for hist in (("entry", "block") if big else (rng.choice(["entry", "block"]),)):
+            other_h = "block" if hist == "entry" else "entry"
+            Xg = X_dense(shp, tgen.rand_dense(rng, shp, 0.9)); Xg["hist"] = hist
+            Yg = X_dense(shp, tgen.rand_dense(rng, shp, 0.9)); Yg["hist"] = other_h
+            fb = family(rng, shp, 0.7)
+            fb["dense"].pop("hist", None)
+            fb.setdefault("k", rand_k(rng, shp)); fb.setdefault("t", rand_t(rng, shp))
+            Tg = rand_t(rng, shp); Tg.pop("lay", None); Tg["corehist"] = hist
+            cases.append(Case("innerprod", {"X": Xg, "Y": fb["dense"]}, True))
+            cases.append(Case("innerprod", {"X": fb["dense"], "Y": Xg}, True))
+            cases.append(Case("innerprod", {"X": Xg, "Y": Yg}, True))
+            cases.append(Case("innerprod", {"X": Xg, "Y": Xg}, True))
+            for rb in (("sparse", "k", "t") if big else rng.sample(["sparse", "k", "t"], 2)):
+                cases.append(Case("innerprod", {"X": Xg, "Y": fb[rb]}, nontriv(fb[rb])))
+                cases.append(Case("innerprod", {"X": fb[rb], "Y": Xg}, nontriv(fb[rb])))
+            cases.append(Case("innerprod", {"X": Tg, "Y": Tg}, nontriv(Tg)))
+            cases.append(Case("innerprod", {"X": Tg, "Y": fb["dense"]}, nontriv(Tg)))
+            cases.append(Case("innerprod", {"X": Xg, "Y": Tg}, nontriv(Tg)))
+            cases.append(Case("norm", {"X": Xg}, True))
+            cases.append(Case("norm", {"X": Tg}, nontriv(Tg)))
+            reqs = mode_requests(rng, N, big)
+            for (dims, excl, M) in rng.sample(reqs, min(len(reqs), 4 if big else 2)):
+                vecs = multiplicands(rng, shp, dims, excl, M, lambda m: rand_vec(rng, shp[m]))
+                cases.append(Case("ttv", {"X": Xg, "dims": dims, "excl": excl, "vecs": vecs, "single": False}, True))
+                if rng.random() < 0.5:
+                    cases.append(Case("ttv", {"X": Tg, "dims": dims, "excl": excl, "vecs": vecs, "single": False}, nontriv(Tg)))
+            for (dims, excl, M) in rng.sample(reqs, min(len(reqs), 3 if big else 1)):
+                tr = rng.random() < 0.5
+                def one_mat(m):
+                    J = rng.choice([1, 2, 3])
+                    return rand_matrix(rng, shp[m], J) if tr else rand_matrix(rng, J, shp[m])
+                mats = multiplicands(rng, shp, dims, excl, M, one_mat)
+                cases.append(Case("ttm", {"X": Xg, "dims": dims, "excl": excl, "mats": mats, "tr": tr, "single": False}, True))
+            for n in (range(N) if big else [rng.randrange(N)]):
+                R = rng.randint(1, 2)
+                U = {"factors": [rand_matrix(rng, d, R) for d in shp], "weights": [rng.choice([-1, 2, 3]) for _ in range(R)] if rng.random() < 0.4 else None}
+                cases.append(Case("mttkrp", {"X": Xg, "n": n, "U": U}, True))
+                cases.append(Case("mttkrp", {"X": Tg, "n": n, "U": U}, nontriv(Tg)))
+            U = {"factors": [rand_matrix(rng, d, 2) for d in shp], "weights": None}
+            cases.append(Case("mttkrps", {"X": Xg, "U": U}, True))
+            subsets = [list(cmb) for r in range(1, N + 1) for cmb in itertools.combinations(range(N), r)]
+            for d in rng.sample(subsets, min(len(subsets), 4 if big else 2)):
+                cases.append(Case("collapse", {"X": Xg, "dims": d}, True))
+                fshape = [shp[m] for m in sorted(d)]
+                fdata = tgen.rand_dense(rng, fshape, 1.0, -2, 3)
+                cases.append(Case("scale", {"X": Xg, "dims": d, "fshape": fshape, "fdata": fdata, "fkind": "tensor"}, True))
+            cases.append(Case("collapse", {"X": Xg, "dims": None}, True))
+            prs = [(i1, i2) for i1 in range(N) for i2 in range(N) if i1 != i2 and shp[i1] == shp[i2]]
+            for (i1, i2) in (prs if big else prs[:1]):
+                cases.append(Case("contract", {"X": Xg, "i1": i1, "i2": i2}, True))
+            wdata = [1 if rng.random() < 0.5 else 0 for _ in range(math.prod(shp))]
+            if not any(wdata):
+                wdata[rng.randrange(len(wdata))] = 1
+            Wg = X_dense(shp, wdata); Wg["hist"] = other_h
+            cases.append(Case("mask", {"X": Xg, "W": Wg}, True))
+            cases.append(Case("mask", {"X": fb["k"], "W": Wg}, nontriv(fb["k"])))
+    # ---- very sparse operands with a LONG mode whose stored entries collide in the result: at most half as many stored entries as the
+    #      long mode has indices, two or three of them in the same slice of that mode.  Every product whose result keeps the long mode
+    #      (vector-valued ttv named in every way, mttkrp of every mode, collapse, ttm) must ADD the colliding terms and stay sparse.
+    long_shapes = [[8, 2], [2, 9], [7, 2, 2], [2, 8, 3], [2, 2, 10], [2, 3, 2, 6]] + ([[12, 3], [3, 12], [9, 3, 2], [3, 2, 11], [6, 2, 2, 2], [10], [2, 6, 2]] if big else [])
+    for shp in long_shapes:
+        N = len(shp)
+        keep = max(range(N), key=lambda m: shp[m])
+        for _ in range(3 if big else 2):
+            Xs = sparse_colliding(rng, shp, keep)
+            if Xs is None:
+                continue
+            others = [m for m in range(N) if m != keep]
+            ways = [(others, None, len(others)), (others[::-1], None, len(others)), (None, [keep], len(others)), (others, None, N), (None, [keep], N)]
+            reqs = mode_requests(rng, N, big)
+            ways += rng.sample(reqs, min(len(reqs), 3))
+            for (dims, excl, M) in ways:
+                vecs = multiplicands(rng, shp, dims, excl, M, lambda m: rand_vec(rng, shp[m], 1, 3))
+                cases.append(Case("ttv", {"X": Xs, "dims": dims, "excl": excl, "vecs": vecs, "single": False, "mlay": rng.randrange(3)}, True))
+            for n in range(N):
+                R = rng.randint(1, 2)
+                kr = rng.random() < 0.4
+                U = {"factors": [rand_matrix(rng, d, R, 1, 3) for d in shp], "weights": [rng.choice([-1, 2, 3]) for _ in range(R)] if kr else None}
+                cases.append(Case("mttkrp", {"X": Xs, "n": n, "U": U}, True))
+            cases.append(Case("collapse", {"X": Xs, "dims": others}, True))
+            cases.append(Case("collapse", {"X": Xs, "dims": [rng.choice(others)]}, True))
+            m0 = rng.choice(others)
+            tr = rng.random() < 0.5
+            J = rng.choice([1, 2])
+            cases.append(Case("ttm", {"X": Xs, "dims": [m0], "excl": None, "mats": [rand_matrix(rng, shp[m0], J) if tr else rand_matrix(rng, J, shp[m0])],
+                                      "tr": tr, "single": False}, True))
+            cases.append(Case("norm", {"X": Xs}, True))
+            cases.append(Case("innerprod", {"X": Xs, "Y": X_dense(shp, tgen.rand_dense(rng, shp, 0.9))}, True))
+            fshape = [shp[keep]]
+            cases.append(Case("scale", {"X": Xs, "dims": [keep], "fshape": fshape, "fdata": tgen.rand_dense(rng, fshape, 0.8, -2, 3), "fkind": "tensor"}, True))
     # ---- structured Tucker operands (unit-length factor columns: repeated / orthonormal selection columns coupled by the core), on both
     #      sides of ttensor.norm's size switch prod(shape) > prod(core.shape): norm, innerprod with every representation, ttv, mttkrp
     for shp in shapes:
@@ -431,6 +536,11 @@ def gen_cases(rng, tier):
     for s1, s2 in pairs:
         a = X_dense(s1, tgen.rand_dense(rng, s1, 0.8))
         b = X_dense(s2, tgen.rand_dense(rng, s2, 0.8))
+        hsel = rng.randrange(4)                  # either / both operands enlarged by assignment before (C-ordered data)
+        if hsel & 1 and len(s1) >= 2:
+            a["hist"] = rng.choice(["entry", "block"])
+        if hsel & 2 and len(s2) >= 2:
+            b["hist"] = rng.choice(["entry", "block"])
         if math.prod(s1) * math.prod(s2) <= 72:
             cases.append(Case("ttt", {"X": a, "Y": b, "sd": None, "od": None}, True))
         # all matchings of equally sized mode lists
@@ -443,6 +553,8 @@ def gen_cases(rng, tier):
     for shp in ([2, 2], [3, 3], [2, 2, 2], [3, 3, 3], [2, 2, 2, 2]):
         N = len(shp)
         X = X_dense(shp, tgen.rand_dense(rng, shp, 0.9))
+        if rng.random() < 0.5:
+            X["hist"] = rng.choice(["entry", "block"])
         v = rand_vec(rng, shp[0])
         for skip in [None] + list(range(0, N - 1)):
             for ver in (None, 1, 2):
